@@ -171,6 +171,8 @@ def main():
             with open(os.path.join(corpus_dir, fn)) as f:
                 cases.append(json.load(f)["case"])
     terms = [coq_term(c) for c in cases]
+    # the runner is not a dependency of Props/C20.vo: bring it up to date explicitly
+    lib.sh("timeout 600 make Run/C20Run.vo", cwd=lib.COQ, timeout=660)
     try:
         mres = lib.coq_eval("C20", HEADER, terms, shard=250)
     except RuntimeError as e:
@@ -234,8 +236,8 @@ def main():
                 continue
         elif wf == 0:
             n_malformed += 1
-            silent = r["construct"] == "accept" and r["use"] in ("numbers", "nonfinite") or \
-                (r["construct"] == "accept" and r["use"] is None and c["ep"] in ("verify",) and False)
+            # verify() returns None: its own gaps (T20.1) only matter where a constructor lets them through
+            silent = r["construct"] == "accept" and r["use"] in ("numbers", "nonfinite")
             if silent:
                 all_bad.append(("DEFECT", sig_defect, c["fact"], c["base"], c["field"], c["corr"], m, r["construct"], r["use"]))
                 ck.report(sig_defect,
